@@ -251,7 +251,7 @@ def c01_4(R):
 
     # ---- OutOfOrderQueue
     ooq = [b for b in F.bodies() if b.self_adt == "stream_rx::OutOfOrderQueue" and b.kind == "method"]
-    R.require(len(ooq) >= 8, "methods of OutOfOrderQueue")
+    R.require(len(ooq) >= 4, "methods of OutOfOrderQueue")
 
     def slot_write(body, it):
         # `*slot = msg` where slot comes from data.get_mut(..)
@@ -346,3 +346,55 @@ def c01_6(R):
         else:
             R.fail([owner_fn(b), "MsgQueue::push_back", c], "unbounded MsgQueue::push_back with a non-Error message", where=t.where(), instance="msgq-unbounded-push")
     R.floor("MsgQueue::push_back call sites", len(cs), 1)
+
+
+@rule("C01.7", ["C01", "C19", "C05"], ["E3", "E4"], "the outcome of ACK processing is never dropped on the way to the ring",
+      "In process_incoming_message every exit Ok(x) that is reachable after Segments::remove_up_to_ack (which already advanced removed_offset / snd_una) returns the ProcessIncomingMessageResult built from "
+      "that call's OnAckResult - never a default; process_all_incoming_messages passes every such result to ProcessIncomingMessageResult::update, whose accumulator feeds truncate_front (C01.3).")
+def c01_7(R):
+    VSP = "stream_dispatch::VirtualSocket"
+    pim = R.body(VSP + "::process_incoming_message")
+    calls = [t for t in pim.calls() if call_matches(t, (SEG + "::remove_up_to_ack",))]
+    R.require(len(calls) == 1, "one call of remove_up_to_ack in process_incoming_message")
+    c = calls[0]
+    after = pim.reachable(c.bb)
+    n = 0
+    for it, cls in ret_assignments(pim):
+        if it.bb not in after or it.bb == c.bb:
+            continue
+        if not cls.startswith("Ok"):
+            continue
+        n += 1
+        ok = False
+        if isinstance(it, Stmt) and it.rv.kind == "agg" and it.rv.ops:
+            t = trace(pim, it.rv.ops[0])
+            if t.kind == "rv" and t.root[1].rv.kind == "agg" and t.root[1].rv.j.get("adt", "").endswith("ProcessIncomingMessageResult"):
+                i = t.root[1].rv.j["fields"].index("on_ack_result")
+                tt = trace(pim, t.root[1].rv.ops[i])
+                if tt.kind == "call" and tt.root[1] is c:
+                    ok = True
+        if ok:
+            R.ok("ack-result-returned", "%s exit @%s" % (pim.name.split("::")[-1], pim.src_line(it.loc)[:40]), "returns the result of remove_up_to_ack")
+        else:
+            R.fail([pim.name, "Ok-exit-after(remove_up_to_ack)-drops-OnAckResult", cls],
+                   "process_incoming_message returns %s after remove_up_to_ack already consumed segments: the acknowledged bytes are never truncated from the TX ring, the ring and the segment offsets diverge" % cls,
+                   where=it.where(), instance="ack-result-returned")
+    R.floor("Ok exits after remove_up_to_ack", n, 2)
+    pam = R.body(VSP + "::process_all_incoming_messages")
+    pc = [t for t in pam.calls() if call_matches(t, (VSP + "::process_incoming_message",))]
+    R.require(len(pc) == 1, "call of process_incoming_message in process_all_incoming_messages")
+    upd = [t for t in pam.calls() if call_matches(t, ("ProcessIncomingMessageResult::update",))]
+    okm = False
+    for u in upd:
+        t = trace(pam, u.args[1], extra_transparent=("std::ops::Try::branch",))
+        if t.kind == "call" and t.root[1] is pc[0]:
+            okm = True
+    if okm:
+        R.ok("ack-result-merged", pam.name, "result.update(&process_incoming_message(..)?)")
+    else:
+        R.fail([pam.name, "process_incoming_message-result-not-merged"], "the per-message ACK result is not merged into the batch result", where=pc[0].where(), instance="ack-result-merged")
+    u = R.body("stream_dispatch::ProcessIncomingMessageResult::update")
+    if any(call_matches(t, ("stream_tx_segments::OnAckResult::update",)) for t in u.calls()):
+        R.ok("ack-result-merged", u.name, "delegates to OnAckResult::update")
+    else:
+        R.fail([u.name, "no-OnAckResult::update"], "ProcessIncomingMessageResult::update no longer merges the OnAckResult", where=u.where(), instance="ack-result-merged")
